@@ -8,8 +8,7 @@ CFG = {
             "quiesce",
             30,
             300
-        ]
-    ],
+        ], ["relayinactive", 3, 20], ["inboundleak", 8, 60]],
     "engine_timeout": 1500,
     "rule": "quiesce (n = 30 quick / 300 thorough histories): each history builds a server, in 1/3 of the cases a relay in front of it, a client whose sockets can be made to fail writes, fail reads, stall or be cut, with random options (idle sweeps, health checks, cancel propagation, relay max timeout), then runs 3-10 operations drawn from: bursts of calls (echo, slow, blackhole, system error, application error, 150 KB response, early error, unknown method; timeouts 30-300 ms; argument sizes 0-200 KB; cancellation after 1-30 ms), 15 kinds of raw client peers (valid call, half call then silence/close, bad checksum continuation, duplicate id, garbage, old init version, connect-and-stall, protocol error frame, unknown frame type, cancel/callres for unknown ids, truncated frame, abrupt reset, huge TTL), 10 kinds of raw server peers (answers, never answers, truncated/ wrong-id / bad-checksum / endless responses, closes mid-response, error frame, bad init res, reset), socket faults, graceful connection closes from either side, pings, pauses; then quiescence and the oracle of the statement (polled up to 2 s). n/20+2 relay histories (each with a blackholed call that always leaves tombstones) are checked only after the 3 s tombstone period. Every run also covers 2 scripted histories (a peer that stops reading for good while the client channel closes, without and with health checks + a one-frame send buffer) and 3 forced schedules through the library's schedule points (connection starts closing between exchange registration and dispatch, inbound and outbound; relay timer callback racing the response). Closing is staged: first only the client channel (its peers alive: the channel must reach Closed, all its sockets must have been closed by the library, the remaining reader/writer goroutines must not outnumber the connections the open channels hold), then everything (no goroutine with a library frame remains). Component subs with model counterparts: mexdrain 8n label sequences on the real messageExchangeSet (ids reused from a range of 1-4), connbook 3n on the real Channel/Peer bookkeeping with Peer.addConnection parked between its two halves, relaydrain 2n on the real Relayer of a live relay connection (timers fired through the schedule point relayTimer.OnTimer, maxTombs 1 / 30000), teardown n+13 (13 scripted label sequences, then random ones) on a real connection against a raw peer that stays alive (close, peer gone, write fault, read fault, forced write, write blocking and returning, blocked outbound/inbound calls, duplicate-id protocol error, protocol error frame), observed after every label once all library goroutines are blocked, ledger: every creating site of a library goroutine seen in goroutine dumps during the run. Non-trivial = more than one operation / object; distinct by input.",
     "trusted_base": COMMON_TRUSTED + [
